@@ -319,6 +319,48 @@ def config (env : Env) (pf : ParseFloat) (c : Cfg) (regs : List Reg) : Str :=
 def configOld (printHi : Char → Bool) (c : Cfg) (regs : List Reg) : Str :=
   configText ((named regs).flatMap (buildOld printHi c))
 
+/-! ### histories: one long-lived monitor, a sequence of catalog states
+
+`ServiceMonitor` keeps nothing between two calls of `makeConfig` (facts `monitor_is_stateless`): what it emits
+after any history of registrations is a function of the catalog as it is *now*. -/
+
+/-- catalog events; a slot is one (node, service id) -/
+inductive Ev where
+  /-- the instance registers — or registers **again** under the same (node, service id) with other fields -/
+  | register (slot : Nat) (r : Reg)
+  | deregister (slot : Nat)
+  /-- its health check turns critical / passing -/
+  | fail (slot : Nat)
+  | pass (slot : Nat)
+
+/-- slot ↦ (registration, health check passing), sorted by slot -/
+abbrev Catalog := List (Nat × Reg × Bool)
+
+def catInsert (k : Nat) (r : Reg) : Catalog → Catalog
+  | [] => [(k, r, true)]
+  | (k', r', p') :: rest =>
+    if k = k' then (k, r, p') :: rest            -- re-registration: the health state is kept
+    else if k < k' then (k, r, true) :: (k', r', p') :: rest
+    else (k', r', p') :: catInsert k r rest
+
+def applyEv (cat : Catalog) : Ev → Catalog
+  | .register k r => catInsert k r cat
+  | .deregister k => cat.filter (fun e => e.1 != k)
+  | .fail k => cat.map (fun e => if e.1 == k then (e.1, e.2.1, false) else e)
+  | .pass k => cat.map (fun e => if e.1 == k then (e.1, e.2.1, true) else e)
+
+/-- the registrations fabio is to route to now: in the catalog and passing -/
+def current (cat : Catalog) : List Reg := (cat.filter (fun e => e.2.2)).map (fun e => e.2.1)
+
+/-- the catalog after each step of a history -/
+def catalogs : Catalog → List (List Ev) → List Catalog
+  | _, [] => []
+  | cat, evs :: rest => let cat' := evs.foldl applyEv cat; cat' :: catalogs cat' rest
+
+/-- the texts a monitor hands out, step by step -/
+def historyTexts (env : Env) (pf : ParseFloat) (c : Cfg) (steps : List (List Ev)) : List Str :=
+  (catalogs [] steps).map (fun cat => config env pf c (current cat))
+
 /-! ### which intents the command language can express (decidable; hypothesis of `expressible_not_dropped`) -/
 
 def noReSpace (s : Str) : Bool := s.all (fun c => !isReSpace c)
